@@ -16,6 +16,11 @@ changes them:
  * `sizeProbe`     (length of the serialised value, cookie set?) around 4064 (fake serialiser of exact lengths)
  * `excProbe`      (set_on_exception, request.exception present, cookie set?) — all four combinations
  * `callbacksAfterMany`  response callbacks registered by a view that calls six marking methods
+ * `shapeProbe`    (timeout, deserialised value, what `__init__` makes of it at 1000.0 s) over the shape cube: every triple
+                   [stamp, stamp, state] with stamps in {0, 5, "7", "x", None, True, [], {"a": 1}} and states in
+                   {{}, {"k": 1}, [], [["k", 1]], "ab", "", None, 3} without timeout, the convertible-stamp triples again with
+                   timeout 10 (expired), and the other arities / kinds (0-5 elements, scalars, 3-character strings, 3-key dicts);
+                   outcome (0, 0, []) = raises | (1 = new / 2 = not new, created, keys)
  * `payloadProbe`  what `_set_cookie` hands to `serializer.dumps` after a read past the reissue time:
                    (stamp, stamp is an int, created, keys)
 Any exception while probing makes `probeOk = false` (and the affected entry "unknown"), so the `decide`d obligations in
@@ -159,7 +164,7 @@ def _classify(mod, state, call):
 
 
 def facts(src_root):
-    out = {'ok': True, 'behaviour': [], 'timeout': [], 'reissue': [], 'size': [], 'exc': [], 'callbacks': 99, 'payload': None, 'errors': []}
+    out = {'ok': True, 'shape': [], 'behaviour': [], 'timeout': [], 'reissue': [], 'size': [], 'exc': [], 'callbacks': 99, 'payload': None, 'errors': []}
     try:
         mod = _load(src_root)
     except Exception as e:      # noqa
@@ -248,6 +253,34 @@ def facts(src_root):
         return len(req.callbacks)
     out['callbacks'] = guarded('callbacks', callbacks_probe, 99)
 
+    def shape_probe():
+        stamps = [0, 5, '7', 'x', None, True, [], {'a': 1}]
+        states = [{}, {'k': 1}, [], [['k', 1]], 'ab', '', None, 3]
+        values = [(None, [a, b, c]) for a in stamps for b in stamps for c in states]
+        conv = [0, 5, '7', True]
+        values += [(10, [a, b, c]) for a in conv for b in conv for c in states]
+        others = [[], [1], [1, 2], [1, 2, {'k': 1}, 4], [1, 2, {'k': 1}, 4, 5], None, 5, True, 'abc', '12', '123', 'xyz', '',
+                  {}, {'1': 0, '2': 0, '3': 0}, {'1': 0, '2': 0, '': 0}, {'x': 0, '2': 0, '3': 0}, {'a': 1}, [[1, 2, {'k': 1}]]]
+        values += [(t, v) for t in (None, 10) for v in others]
+        rows = []
+        for T, v in values:
+            factory = mod.BaseCookieSessionFactory(_Ser(v), timeout=T, reissue_time=None)
+            mod.time.q = 4000
+            try:
+                s = factory(_Req())
+            except (TypeError, ValueError):
+                rows.append((T, v, (0, 0, [])))
+                continue
+            keys = list(dict.keys(s))
+            if not all(isinstance(k, str) for k in keys):
+                raise ValueError('non-string key')
+            created = s.created * 4
+            if created != int(created):
+                raise ValueError('created off the grid')
+            rows.append((T, v, (1 if s.new else 2, int(created), keys)))
+        return rows
+    out['shape'] = guarded('shape', shape_probe, [])
+
     def payload_probe():
         s, req, ser = _session(mod, {'a': 1}, 400, timeout=None, reissue_time=10)
         mod.time.q = 482
@@ -270,6 +303,22 @@ def _b(x):
     return 'true' if x else 'false'
 
 
+def _jv(v):
+    if v is None:
+        return '.null'
+    if isinstance(v, bool):
+        return '(.bool %s)' % _b(v)
+    if isinstance(v, int):
+        return '(.int %d)' % v
+    if isinstance(v, str):
+        return '(.str %s)' % _s(v)
+    if isinstance(v, list):
+        return '(.arr [%s])' % ', '.join(_jv(x) for x in v)
+    if isinstance(v, dict):
+        return '(.obj [%s])' % ', '.join('(%s, %s)' % (_s(k), _jv(x)) for k, x in v.items())
+    raise ValueError('not a JSON value')
+
+
 def _opt(x):
     return 'none' if x is None else '(some %d)' % x
 
@@ -280,7 +329,8 @@ def generate(src_root):
     summary.update({'probed_methods': len(f['behaviour']), 'unknown': [m for m, k in f['behaviour'] if k == 'unknown'],
                     'ok': f['ok'], 'errors': f['errors'][:5]})
     pl = f['payload'] or (0, False, 0, ['?'])
-    lines = ['/- GENERATED by extract/c10.py by running src/pyramid/session.py of the tree under test — do not edit -/',
+    lines = ['import PyramidModel.Session',
+             '/- GENERATED by extract/c10.py by running src/pyramid/session.py of the tree under test — do not edit -/',
              'namespace Pyr.Session.Gen', '',
              '/-- no probe raised an unexpected exception -/',
              'def probeOk : Bool := %s' % _b(f['ok']), '',
@@ -300,6 +350,10 @@ def generate(src_root):
              'def callbacksAfterMany : Nat := %d' % f['callbacks'],
              '/-- what `_set_cookie` serialises after a read at 482 of a cookie renewed at 400 (reissue 10): stamp, stamp is int, created, keys -/',
              'def payloadProbe : Nat × Bool × Nat × List String := (%d, %s, %d, [%s])' % (pl[0], _b(pl[1]), pl[2], ', '.join(_s(k) for k in pl[3])),
+             '/-- (timeout, deserialised value, what `__init__` makes of it at clock 4000) over the shape cube -/',
+             'def shapeProbe : List (Option Nat × JV × Nat × Nat × List String) := [',
+             ',\n'.join('  (%s, %s, %d, %d, [%s])' % (_opt(t), _jv(v), o[0], o[1], ', '.join(_s(k) for k in o[2])) for t, v, o in f.get('shape', [])),
+             ']',
              '', 'end Pyr.Session.Gen', '']
     return {'PyramidModel/Gen/C10Wrap.lean': '\n'.join(lines)}
 
